@@ -320,9 +320,9 @@ def models(chk: Check):
     with open(path, "w") as f:
         f.write("SPECIFICATION Spec\nCONSTANTS\n Fixed = TRUE\n"
                 f" MaxAtt = {3 if quick else 4}\n Horizon = {12 if quick else 20}\n SlowLat = 2\n MaxDelay = 4\n BrkThr = 3\n BrkSleep = 3\n"
-                f" ModelTaskBound = 3\n MaxRuns = {1 if quick else 2}\nINVARIANT NoContractViolation\nINVARIANT BoundedTasks\nINVARIANT AllClosed\nINVARIANT NoOrphan\n"
+                f" ModelTaskBound = 3\n MaxRuns = 2\nINVARIANT NoContractViolation\nINVARIANT BoundedTasks\nINVARIANT AllClosed\nINVARIANT NoOrphan\n"
                 "CHECK_DEADLOCK FALSE\n")
-    chk.model("conn", "ConnMgrTasks", path, workers=16, coverage=True, timeout=1500)
+    chk.model("conn", "ConnMgrTasks", path, workers=16, coverage=quick, timeout=2400, xmx="12g")
 
 
 def run_c17(chk: Check) -> int:
@@ -351,7 +351,7 @@ def run_c17(chk: Check) -> int:
     chk.assumptions += ["asyncio's scheduling is explored by injecting close() at every iteration of the virtual-time loop for each scripted "
                         "scenario; the TLC model covers arbitrary interleavings of ready tasks", "task bound 8 (DESIGN §8-8)"]
     return chk.finish(rule="model: ConnMgrTasks (tasks between awaits, environment close/loss/outcomes) => ConnMgr contract, exhaustive to "
-                           + ("3 attempts / horizon 12" if quick else "4 attempts / horizon 20") + "; real code on the virtual-time loop: all "
+                           + ("3 attempts / horizon 12 / 2 runs" if quick else "4 attempts / horizon 20 / 2 runs (58.9 M states)") + "; real code on the virtual-time loop: all "
                            "attempt-outcome scripts {ok,fail,slowok,slowfail}^n x 4 lifetime patterns x close() injected at every loop iteration "
                            "(n=3" + (", n=4 sampled every 9th" if quick else ", n=4; n=5 sampled every 25th") + ") plus runs of up to "
                            f"{max(cyc)} reconnect cycles; every event trace judged by TLC's contract monitor; non-trivial = distinct (script, close point)")
